@@ -350,7 +350,8 @@ BODY_TABLES = {
     "C20": ["plot_maybe_slice_level", "utils_get_source_area"],
 }
 BODY_TABLES["C13"] += ["cfg_parse_tower", "cfg_parse_domain", "cfg_parse_met", "cfg_parse_solver", "cfg_parse_parallel", "cfg_load_config"]
-BODY_TABLES["C08"] += ["cfg_parse_tower", "cfg_parse_domain", "cfg_parse_met", "cfg_parse_solver"]
+BODY_TABLES["C08"] += ["cfg_parse_tower", "cfg_parse_domain", "cfg_parse_met", "cfg_parse_solver", "met_get_step"]
+BODY_TABLES["C13"] += ["met_get_step"]
 BODY_TABLES["C16"] += ["cfg_parse_met"]
 BODY_TABLES["C17"] += ["cfg_parse_tower", "cfg_parse_domain"]
 BODY_TABLES["C14"] = ["cfg_parse_parallel", "cfg_parse_met"]
